@@ -50,6 +50,17 @@ func StartKeygenCommon(taproot bool, group curve.Curve, participants []party.ID,
 		}
 
 		refresh := true
+		if privateShare != nil && publicKey != nil {
+			// refresh: the participants must be exactly the holders of the existing shares
+			if len(verificationShares) != len(participants) {
+				return nil, fmt.Errorf("keygen.StartKeygen: refresh needs the %d existing shareholders", len(verificationShares))
+			}
+			for _, id := range participants {
+				if verificationShares[id] == nil {
+					return nil, fmt.Errorf("keygen.StartKeygen: party %s holds no share of the key", id)
+				}
+			}
+		}
 		if privateShare == nil || publicKey == nil {
 			refresh = false
 			privateShare = group.NewScalar()
